@@ -34,7 +34,7 @@ func (c18) ID() string       { return "C18" }
 func (c18) New() interface{} { return &C18Script{} }
 func (c18) Info() core.Info {
 	return core.Info{
-		Runs: map[string]int{"quick": 150000, "thorough": 12000000},
+		Runs: map[string]int{"quick": 1500000, "thorough": 100000000},
 		Rule: "Each run sends m<=24 uniquely stamped packets (+ optional 1..187-byte partial tail) through IOWriter/IOWriteCloser/PacketWriterFunc adapters, either by Write calls cut at scripted byte counts (multiples of 188 and, as the negative case, non-multiples) or by ReadFrom / io.Copy over a SimReader whose every Read outcome is scripted (whole packets, unaligned fragments, one byte at a time, zero-length reads, data together with EOF, transient/hard error after e bytes), with a SimSink that may fail or short-count at a scripted packet; plus a complete sweep of all compositions of two packets (376 bytes) into <=3 read fragments x {EOF alone, data with EOF}. Non-trivial = at least one reach probe fired.",
 		Real: []string{"packet.IOWriter", "packet.IOWriteCloser", "packet.NopCloser", "packet.PacketWriterFunc", "(*packetWriter).Write", "(*packetWriter).ReadFrom", "io.Copy (stdlib)"},
 		Stub: []string{"SimReader (scripted io.Reader)", "SimSink (scripted PacketWriter/Closer)", "packet source"},
